@@ -1,5 +1,5 @@
 #!/usr/bin/env python3
-"""seedtable.py: writes seeded/TABLE.md (rounds 2 to 5 of the independent seeded changes) from the
+"""seedtable.py: writes seeded/TABLE.md (rounds 2 to 6 of the independent seeded changes) from the
 seeds' notes, the regression matrix seeded/RESULTS.txt and the history notes below, and copies the
 history into each seed's meta.json."""
 import json, os, re
@@ -69,13 +69,33 @@ H = {
  'r5-C18-1': "initially missed: programs were tiny; added tail-recursive loops of 3000-4000 iterations under the stepper",
  'r5-C19-2': "initially missed: strings never spanned lines in the text; added the raw-strings-across-line-ends family (LF, CRLF, CRLF inside the string only)",
  'r5-C20-1': "initially missed: no panic with a lisp error; added",
+ # round 6 (several additions were made from the authors' summaries while the evaluation of the round was still running;
+ # those changes are marked "not reported as built")
+ 'r6-C01-2': "initially missed: no float in the alphabet; added the literal 1.5 (a float is no integer for + and <)",
+ 'r6-C02-1': "not reported as built: no error object was ever made from a bound map; added marshal-error-of-map",
+ 'r6-C03-2': "initially missed: no swap! in the try programs; added 4 fixed programs whose update function changes the atom and then throws",
+ 'r6-C05-1': "initially missed: placeholder values were ints; added Go-built list / vector / symbol values (no source position)",
+ 'r6-C06-2': "not reported as built: no non-ASCII digit among the identifier characters; added",
+ 'r6-C07-1': "not reported as built: on the virtual clock a deadline and its signal coincide; added a mode in which the context reports its deadline 20 polls before Done is signalled",
+ 'r6-C08-1': "not reported as built: C08 never had a stepper; every 7th case now runs a stepper session that ends in a step-out before its loops",
+ 'r6-C08-2': "not reported as built: a fully unquoted quasiquote was not among the tail constructs; added",
+ 'r6-C09-1': "initially missed: 32 lost rounds in a row are far beyond the preemption bound; added the directed forty-lost-rounds schedule (one execution per swap! kind, scheduler policy hook)",
+ 'r6-C09-2': "initially missed: atoms only held ints; added atom w holding a list / vector (reset! to either, swap! conj, deref)",
+ 'r6-C14-1': "not reported as built: = was only evaluated under a context that never ends; deeply nested equal values are now also compared under contexts ending at polls 2..12 (true or a timeout error, never false)",
+ 'r6-C15-2': "not reported as built: no template started with a ';; $MODULE' header line; added",
+ 'r6-C16-1': "not reported as built: expressions had at most a dozen tokens; added the long-expressions family (63..4097 tokens)",
+ 'r6-C16-2': "initially missed: « » was not among the bracket kinds; added cut texts containing a constructor form",
+ 'r6-C17-2': "not reported as built: pipelines were single macros; added a pipeline inside a pipeline",
+ 'r6-C18-1': "initially missed: no bare panic below a call form with a handler that looks at what it caught; added 3 fixed programs",
+ 'r6-C19-1': "not reported as built: no unquote of a deref in a template; added",
+ 'r6-C19-2': "not reported as built: no future that is the value of a top-level form; added",
 }
 res = {}
 for l in open('/verif/seeded/RESULTS.txt'):
     n = l.split(' | ')[0].strip()
     res[n] = [m.group(1) for m in re.finditer(r'\| (C\d\d) rc=1', l)]
 out = []
-for rnd in ('r2', 'r3', 'r4', 'r5'):
+for rnd in ('r2', 'r3', 'r4', 'r5', 'r6'):
     out.append(f"\n**Round {rnd[1]}**\n\n| seed | what it does (first line of the author's notes) | reported by (own-property quick check, regression matrix) | history |\n|---|---|---|---|")
     for d in sorted(os.listdir('/verif/seeded')):
         if not d.startswith(rnd + '-'): continue
